@@ -64,6 +64,18 @@ func genValue(t *rapid.T, label string) any {
 	return rapid.SampledFrom([]any{"x", "y", 1.0, 2.0, true}).Draw(t, label)
 }
 
+// objG builds the object like kit.Obj and gives metadata.generation the type a client-go decoder gives it (int64;
+// the generated description holds a JSON number).
+func objG(ns, name string, body map[string]any) *unstructured.Unstructured {
+	o := kit.Obj(ns, name, body)
+	if md, ok := o.Object["metadata"].(map[string]any); ok {
+		if g, ok := md["generation"].(float64); ok {
+			md["generation"] = int64(g)
+		}
+	}
+	return o
+}
+
 func genBody(t *rapid.T) map[string]any {
 	b := map[string]any{}
 	md := map[string]any{}
@@ -136,8 +148,20 @@ func gen(t *rapid.T) Case {
 	c.Filter = rapid.SampledFrom(filters).Draw(t, "filter")
 	c.KeepFull = rapid.Bool().Draw(t, "keepFull")
 	ns := rapid.IntRange(2, 5).Draw(t, "nstates")
+	// in half of the cases the objects carry metadata.generation, as Deployments or custom resources do: it moves
+	// with spec changes only, so states that differ in labels, annotations or data often share one generation
+	withGeneration := rapid.Bool().Draw(t, "withGeneration")
 	for i := 0; i < ns; i++ {
-		c.States = append(c.States, genBody(t))
+		b := genBody(t)
+		if withGeneration {
+			md, _ := b["metadata"].(map[string]any)
+			if md == nil {
+				md = map[string]any{}
+				b["metadata"] = md
+			}
+			md["generation"] = float64(rapid.SampledFrom([]int{1, 1, 1, 2}).Draw(t, "generation"))
+		}
+		c.States = append(c.States, b)
 	}
 	objs := []string{"o1", "o2", "o3"}[:rapid.IntRange(1, 3).Draw(t, "nobj")]
 	for _, o := range objs {
@@ -227,7 +251,7 @@ type outcome struct {
 func expectedEvents(c Case, listed []string, asIfEmpty bool) ([]string, bool, bool, error) {
 	known := map[string]string{}
 	proj := func(obj string, st int) (string, string, error) {
-		p, err := projection(c.Filter, kit.Obj("d", obj, c.States[st]))
+		p, err := projection(c.Filter, objG("d", obj, c.States[st]))
 		if err != nil {
 			return "", "", err
 		}
@@ -324,7 +348,7 @@ func runCase(c Case) (ev.Info, error) {
 	}
 	fc := kit.NewCluster("d")
 	for _, o := range kit.SortedKeys(c.Initial) {
-		kit.Must(kit.Create(fc, kit.Obj("d", o, c.States[c.Initial[o]])))
+		kit.Must(kit.Create(fc, objG("d", o, c.States[c.Initial[o]])))
 	}
 	kindSpelling := "ConfigMap"
 	if c.Kind != "" {
@@ -423,7 +447,7 @@ func runCase(c Case) (ev.Info, error) {
 			if !ok {
 				return fmt.Errorf("step %d: snapshot shows %s which is not live", step, name)
 			}
-			want := kit.Obj("d", name, c.States[st])
+			want := objG("d", name, c.States[st])
 			if c.KeepFull {
 				if s.Object == nil || kit.Canon(s.Object.Object) != kit.Canon(want.Object) {
 					return fmt.Errorf("step %d: snapshot of %s does not show its latest state %d", step, name, st)
@@ -470,17 +494,17 @@ func runCase(c Case) (ev.Info, error) {
 				continue
 			}
 		}
-		o := kit.Obj("d", s.Obj, c.States[st])
+		o := objG("d", s.Obj, c.States[st])
 		switch op {
 		case "add":
 			inf.OnAdd(o, s.Init)
 			live[s.Obj] = st
 		case "update", "resync":
-			old := kit.Obj("d", s.Obj, c.States[live[s.Obj]])
+			old := objG("d", s.Obj, c.States[live[s.Obj]])
 			inf.OnUpdate(old, o)
 			live[s.Obj] = st
 		case "delete":
-			gone := kit.Obj("d", s.Obj, c.States[live[s.Obj]])
+			gone := objG("d", s.Obj, c.States[live[s.Obj]])
 			if s.Tombstone {
 				inf.OnDelete(cache.DeletedFinalStateUnknown{Key: "d/" + s.Obj, Obj: gone})
 			} else {
@@ -512,7 +536,7 @@ func runCase(c Case) (ev.Info, error) {
 	}
 	if c.Filter == "" {
 		info.Labels = append(info.Labels, "filter:none")
-	} else if p, err := projection(c.Filter, kit.Obj("d", "o1", c.States[0])); err == nil {
+	} else if p, err := projection(c.Filter, objG("d", "o1", c.States[0])); err == nil {
 		info.Labels = append(info.Labels, "filter:"+kit.Kind(p))
 	}
 	var gotKeys []string
@@ -535,7 +559,7 @@ func runCase(c Case) (ev.Info, error) {
 	return info, failure
 }
 
-const rule = "one informer of a real monitor on a fake cluster (kind spelled ConfigMap, configmap or configmaps), unlocked from the start or - in a third of the cases - only after the first 1-8 steps (their events are buffered and handed over at the unlock), driven through OnAdd/OnUpdate/OnDelete with generated per-object histories over a pool of 2-5 generated object states (repeats, changes outside the projection, delete (also delivered as a DeletedFinalStateUnknown tombstone) and re-add, re-delivery of Added for listed objects - also flagged as coming from the informer's own initial list, possibly in a newer state -, resync), executeHookOnEvent all subsets plus default (in a third of the cases declared in a hook configuration loaded by the real loader, optionally next to the deprecated watchEvent), jqFilter from a pool of object/array/scalar/null-valued single-output expressions, two multi-output expressions (objects with distinct keys) or none; oracle: trigger <=> type listed and (Deleted or independently computed projection differs from the last known), and every snapshot shows the latest state. Non-trivial: one object had both a suppressed and a delivered Modified. Distinct = distinct cases."
+const rule = "one informer of a real monitor on a fake cluster (kind spelled ConfigMap, configmap or configmaps), unlocked from the start or - in a third of the cases - only after the first 1-8 steps (their events are buffered and handed over at the unlock), driven through OnAdd/OnUpdate/OnDelete with generated per-object histories over a pool of 2-5 generated object states (in half of the cases with metadata.generation, mostly equal across states as for status- or metadata-only changes; repeats, changes outside the projection, delete (also delivered as a DeletedFinalStateUnknown tombstone) and re-add, re-delivery of Added for listed objects - also flagged as coming from the informer's own initial list, possibly in a newer state -, resync), executeHookOnEvent all subsets plus default (in a third of the cases declared in a hook configuration loaded by the real loader, optionally next to the deprecated watchEvent), jqFilter from a pool of object/array/scalar/null-valued single-output expressions, two multi-output expressions (objects with distinct keys) or none; oracle: trigger <=> type listed and (Deleted or independently computed projection differs from the last known), and every snapshot shows the latest state. Non-trivial: one object had both a suppressed and a delivered Modified. Distinct = distinct cases."
 
 func TestInformer(t *testing.T) {
 	ev.Main(t, ev.Spec[Case]{Property: "C08", Part: "informer", Rule: rule, Gen: gen, Run: runCase})
